@@ -15,7 +15,7 @@ def run(tier, seed):
                          'slots, live slots off the scratch rows) every live slot holds its gate-by-gate value after every op, hence every captured line after the last. '
                          'Tier B (bounded): translation of the netlist into ops, assign/capture/state transfer/cycle and the composition to netlist level are checked '
                          'by running the real LogicSim against the gate-by-gate oracle on a stated circuit space.')
-    res.report = verify(logic_sim_c.targets(ms=(2,)) + logic_sim_c.composition_targets(ms=(2,)) + [logic_sim_c.lut_lemmas(), logic_sim_c.lifting_lemmas()] + translate_c.targets() + translate_c.targets_node() + logic_io_c.targets((1,)),
+    res.report = verify(logic_sim_c.targets(ms=(2,)) + logic_sim_c.composition_targets(ms=(2,)) + [logic_sim_c.lut_lemmas(), logic_sim_c.lifting_lemmas()] + translate_c.targets_node() + logic_io_c.targets((1,)),
                         timeout_s=20 if tier == 'quick' else 120)
     from bounded import simops_drv
     res.bounded = [simops_drv.part(tier, seed, which=('map',), pid='C01'), logic_drv.logic_part('C01', (2,), tier, seed, with_cycles=True,
